@@ -22,6 +22,7 @@ func c17(c *Ctx) {
 	c.divGuards("div")
 	c.journalValidity("journal-valid")
 	c.rollbackFamily("rollback")
+	c.truncFamily("trunc")
 	c.constIndexGuards("const-index", []string{
 		"litefs.(*JournalReader).Next", "litefs.(*JournalReader).ReadFrame", "litefs.(*WALReader).ReadHeader", "litefs.(*WALReader).ReadFrame", "litefs.readSQLiteDatabaseHeader",
 	}, 30)
